@@ -1,5 +1,5 @@
 SPECIFICATION TraceSpec
 CONSTANTS
   ModelChecks = TRUE
-  TolerateOps = {"GETSET"}
+  TolerateOps = {"GETSET", "SORT"}
 CHECK_DEADLOCK FALSE
